@@ -17,8 +17,8 @@ RULE = ("25 operations (slope, aspect, curvature, hillshade, focal mean/apply/fo
         "sleeps before tasks under the threaded scheduler and records task order and thread ids; non-trivial = distinct (operation, "
         "data, chunking, arguments) with >= 2 blocks on some axis and a non-constant raster")
 BUDGET = {'quick': 150, 'thorough': 1200}
-FLOORS = {'quick': {'dask_equals_numpy': 900, 'stays_dask': 900, 'chunks.has-1-cell-chunk': 250, 'kernel_larger_than_a_chunk': 80,
-                    'kernel_nonsquare': 60, 'scheduler.threads': 300, 'threaded_runs_with_>=2_threads': 20},
+FLOORS = {'quick': {'dask_equals_numpy': 585, 'stays_dask': 585, 'chunks.has-1-cell-chunk': 250, 'kernel_larger_than_a_chunk': 72,
+                    'kernel_nonsquare': 58, 'scheduler.threads': 300, 'threaded_runs_with_>=2_threads': 20},
           'thorough': {'dask_equals_numpy': 9000, 'all_compositions_blocks': 200}}
 DONTCARE_OF = {'hotspots.threshold_band': 'hotspots.cells_compared'}
 EXHAUSTIVE = {'quick': [], 'thorough': ['every pair of compositions (chunking) of an HxW raster with H,W<=5 for slope, focal.mean, convolution_2d (3x3 kernel) and focal.apply (non-square kernel)']}
